@@ -957,6 +957,58 @@ func init() {
 		{"sub-document", true, func(g *Gen) *LNode { return g.objVariant(g.Fn(), g.E()) }},
 		{"array-literal", true, func(g *Gen) *LNode { return g.arrVariant(g.E(), true) }},
 	}
+	// operators with NAMED arguments (manual: every argument "can be any valid expression"): one production per operator;
+	// a free choice says which argument carries the focus.  An argument that usually holds an enumerated keyword (unit,
+	// timezone, format, startOfWeek, options, method, lang ...) holds, when focused, an expression that CHOOSES the keyword
+	// by comparing a field with a client-supplied literal - that literal is user data like any other.
+	type narg struct {
+		name string
+		kw   string // "" = an expression argument; otherwise the keyword the argument usually holds
+	}
+	named := []struct {
+		op   string
+		args []narg
+	}{
+		{"$dateAdd", []narg{{"startDate", ""}, {"unit", "day"}, {"amount", ""}, {"timezone", "UTC"}}},
+		{"$dateSubtract", []narg{{"startDate", ""}, {"unit", "hour"}, {"amount", ""}, {"timezone", "Europe/Paris"}}},
+		{"$dateDiff", []narg{{"startDate", ""}, {"endDate", ""}, {"unit", "week"}, {"timezone", "UTC"}, {"startOfWeek", "mon"}}},
+		{"$dateTrunc", []narg{{"date", ""}, {"unit", "week"}, {"binSize", "#2"}, {"timezone", "UTC"}, {"startOfWeek", "sunday"}}},
+		{"$dateFromParts", []narg{{"year", ""}, {"month", ""}, {"day", ""}, {"timezone", "UTC"}}},
+		{"$dateToParts", []narg{{"date", ""}, {"timezone", "UTC"}, {"iso8601", "#true"}}},
+		{"$dateToString-tz", []narg{{"date", ""}, {"format", "%Y-%m"}, {"timezone", "UTC"}, {"onNull", ""}}},
+		{"$regexFind", []narg{{"input", ""}, {"regex", ""}, {"options", "i"}}},
+		{"$regexFindAll", []narg{{"input", ""}, {"regex", ""}, {"options", "im"}}},
+		{"$replaceAll", []narg{{"input", ""}, {"find", ""}, {"replacement", ""}}},
+		{"$ltrim", []narg{{"input", ""}, {"chars", ""}}},
+		{"$getField", []narg{{"field", "status"}, {"input", ""}}},
+		{"$topN", []narg{{"n", "#2"}, {"sortBy", "#{}"}, {"output", ""}}},
+		{"$percentile", []narg{{"input", ""}, {"p", "#[]"}, {"method", "approximate"}}},
+		{"$function", []narg{{"body", ""}, {"args", ""}, {"lang", "js"}}},
+	}
+	for _, nd := range named {
+		nd := nd
+		eProds = append(eProds, prod{nd.op, false, func(g *Gen) *LNode {
+			focus := g.x.Free(len(nd.args), "focused argument")
+			kv := []any{}
+			for i, a := range nd.args {
+				var v *LNode
+				switch {
+				case a.kw == "" && i == focus:
+					v = g.E()
+				case a.kw == "":
+					v = g.ref()
+				case i == focus:
+					// an expression that picks the keyword
+					alt := LS(strings.TrimLeft(a.kw, "#") + "2").DC()
+					v = LO("$cond", LA(LO("$eq", LA(g.ref(), g.leaf(MStr|MNum))), kwNode(a.kw), alt))
+				default:
+					v = kwNode(a.kw)
+				}
+				kv = append(kv, a.name, v)
+			}
+			return LO(strings.TrimSuffix(nd.op, "-tz"), LO(kv...))
+		}})
+	}
 
 	sq := func(name string, extra func(g *Gen) []any) prod {
 		return prod{name, name == "text", func(g *Gen) *LNode {
@@ -1058,6 +1110,22 @@ func init() {
 			return LO("compound", LO("must", LA(LO("exists", LO("path", LS("bio").DC())), LO("text", LO("query", g.leaf(MStr), "path", LS("bio").DC())))))
 		}},
 	}
+}
+
+// kwNode: the usual (don't-care) value of a keyword argument: "#…" spells a non-string (number, boolean, {}, []).
+func kwNode(kw string) *LNode {
+	switch kw {
+	case "#true":
+		return LB(true).DC()
+	case "#{}":
+		return LO("k", LN("1").DC()).DC()
+	case "#[]":
+		return LA(LN("0.5").DC()).DC()
+	}
+	if strings.HasPrefix(kw, "#") {
+		return LN(kw[1:]).DC()
+	}
+	return LS(kw).DC()
 }
 
 // merge appends the members of o to n.
